@@ -371,10 +371,12 @@ func (c *Ctx) Finish() int {
 		ev["assumptions"] = []string{}
 	}
 	b, _ := json.MarshalIndent(ev, "", " ")
-	os.MkdirAll(filepath.Join(VerifRoot, "evidence"), 0o755)
-	tmp := filepath.Join(VerifRoot, "evidence", c.ID+".json.tmp")
+	// experiments against scratch worktrees (tools/try_seed.sh) must not overwrite the evidence of /repo
+	evDir := envOr("VERIF_EVIDENCE_DIR", filepath.Join(VerifRoot, "evidence"))
+	os.MkdirAll(evDir, 0o755)
+	tmp := filepath.Join(evDir, c.ID+".json.tmp")
 	if err := os.WriteFile(tmp, append(b, '\n'), 0o644); err == nil {
-		os.Rename(tmp, filepath.Join(VerifRoot, "evidence", c.ID+".json"))
+		os.Rename(tmp, filepath.Join(evDir, c.ID+".json"))
 	}
 
 	for _, l := range lines {
@@ -385,7 +387,7 @@ func (c *Ctx) Finish() int {
 }
 
 func writeReplay(id string, v Violation) string {
-	dir := filepath.Join(VerifRoot, "replays")
+	dir := envOr("VERIF_REPLAY_DIR", filepath.Join(VerifRoot, "replays"))
 	os.MkdirAll(dir, 0o755)
 	h := sha1.Sum([]byte(v.Signature))
 	p := filepath.Join(dir, fmt.Sprintf("%s-%s.json", id, hex.EncodeToString(h[:5])))
